@@ -1,39 +1,3 @@
-/- GENERATED by harness/extract_circuit.py from /repo/src — do not edit. -/
-import CC.Model.CircuitBase
-namespace CC.Gen
-open CC
-
-/-- every translator function of `Circuit/transformers.py`, in source order -/
-def transSpecs : List TSpec := [
-  { fn := "resistor", reads := ["R"], n1 := 0, n2 := 1, idSelf := true,
-    body := .plain (.resistor (.key "R")) },
-  { fn := "impedance", reads := ["R", "X"], n1 := 0, n2 := 1, idSelf := true,
-    body := .plain (.impedance (.cart (.key "R") (.key "X"))) },
-  { fn := "capacitor", reads := ["C"], n1 := 0, n2 := 1, idSelf := true,
-    body := .plain (.admittance (.cart (.lit (0 : Rat)) (.mul .w (.key "C")))) },
-  { fn := "inductance", reads := ["L"], n1 := 0, n2 := 1, idSelf := true,
-    body := .plain (.impedance (.cart (.lit (0 : Rat)) (.mul .w (.key "L")))) },
-  { fn := "dc_voltage_source", reads := ["V", "R", "w"], n1 := 0, n2 := 1, idSelf := true,
-    body := .gated (.voltageSource (.polar (.key "V") (.lit (0 : Rat))) (.polar (.key "R") (.lit (0 : Rat)))) (.key "w") .gt .shortCircuit },
-  { fn := "ac_voltage_source", reads := ["V", "phi", "R", "w"], n1 := 0, n2 := 1, idSelf := true,
-    body := .gated (.voltageSource (.polar (.key "V") (.key "phi")) (.polar (.key "R") (.lit (0 : Rat)))) (.key "w") .gt .shortCircuit },
-  { fn := "complex_voltage_source", reads := ["V_real", "V_imag", "R", "X"], n1 := 0, n2 := 1, idSelf := true,
-    body := .plain (.voltageSource (.cart (.key "V_real") (.key "V_imag")) (.cart (.key "R") (.key "X"))) },
-  { fn := "periodic_voltage_source", reads := ["wavetype", "w", "V", "phi"], n1 := 0, n2 := 1, idSelf := true,
-    body := .periodic "wavetype" "w" "V" "phi" .gt .shortCircuit
-      "ac_voltage_source" [("w", .w), ("phi", .harmPhase), ("V", .harmAmp)] "ac_voltage_source" },
-  { fn := "dc_current_source", reads := ["I", "G", "w"], n1 := 0, n2 := 1, idSelf := true,
-    body := .gated (.currentSource (.polar (.key "I") (.lit (0 : Rat))) (.polar (.key "G") (.lit (0 : Rat)))) (.key "w") .gt .openCircuit },
-  { fn := "ac_current_source", reads := ["I", "G", "w", "phi"], n1 := 0, n2 := 1, idSelf := true,
-    body := .gated (.currentSource (.polar (.key "I") (.key "phi")) (.polar (.key "G") (.lit (0 : Rat)))) (.key "w") .gt .openCircuit },
-  { fn := "complex_current_source", reads := ["I_real", "I_imag", "G", "B", "w"], n1 := 0, n2 := 1, idSelf := true,
-    body := .gated (.currentSource (.cart (.key "I_real") (.key "I_imag")) (.cart (.key "G") (.key "B"))) (.key "w") .gt .shortCircuit },
-  { fn := "periodic_current_source", reads := ["wavetype", "w", "I", "phi"], n1 := 0, n2 := 1, idSelf := true,
-    body := .periodic "wavetype" "w" "I" "phi" .gt .openCircuit
-      "ac_current_source" [("w", .w), ("phi", .harmPhase), ("I", .harmAmp)] "ac_current_source" },
-  { fn := "short_circuit", reads := [], n1 := 0, n2 := 1, idSelf := true,
-    body := .plain .shortCircuit },
-  { fn := "resistive_load", reads := ["P", "V_ref"], n1 := 0, n2 := 1, idSelf := true,
-    body := .plain (.load (.key "P") (.key "V_ref")) }]
-
-end CC.Gen
+-- translator refused: Circuit/transformers.py:105: periodic translator: inner argument R=float(source.value['R']) outside the grammar
+#eval (panic! "translator refused" : Unit)
+example : False := by decide
